@@ -74,11 +74,16 @@ CHECKS = {
             "loss = 1 - score, Dice symmetry, Tversky(1/2,1/2) = Dice, alpha<->FP / beta<->FN roles and defaults, weight shapes. Module wrappers "
             "forward every stored option. Does not decide: ncc/lcc/mi invariances, ranges, histogram behaviour.",
             "DESIGN.md 4/C16"),
-    "C17": (True, "E7+E4",
-            "wrapper/constructor forwarding rules and certain-crash lint over the regulariser wrappers and functionals",
-            "Decides: every flow-regulariser module forwards each stored constructor option to the functional it wraps and each constructor "
-            "forwards shared parameters to its base; no call in the regulariser functionals is certain to raise (signature binding, calls of "
-            "non-callables). Does not decide (yet): regulariser weights, null spaces, elastic-constant identities, unit conversion.",
+    "C17": (True, "E5(T17,T10)+E7+E4",
+            "abstract interpretation of the regulariser functionals, the elastic-constant table and the inverse-consistency loss over a "
+            "polynomial-ring domain; wrapper-forwarding rules; crash lint",
+            "Decides for D in {2,3} on fields with symbolic polynomial coefficients and symbolic anisotropic spacing: analytic values of "
+            "bending (mixed weight 2), curvature (1/2 Laplacian^2), diffusion, divergence, grad(p,q), total variation and elasticity "
+            "(lambda/2 div^2 + mu/4 sum (d_j u_k + d_k u_j)^2); null spaces (affine / translation / linear transforms), quadratic scaling, "
+            "reductions, default spacing 2/(n-1) in (x,...) order; all supported elastic-constant pairs give the defining (lambda, mu); "
+            "inverse-consistency error of translations in cube / voxel / world units for both conventions, exact inverse gives 0, margin "
+            "cropping; module wrappers forward every option. Does not decide: B-spline bending vs analytic energy beyond the derivative "
+            "tables (C12/C14), masks of inverse consistency, float accuracy.",
             "DESIGN.md 4/C17"),
     "C09": (True, "E5(T6x)+module model",
             "bounded exploration of operation histories by abstract interpretation of the real transform classes (nn.Module semantics modelled) "
@@ -133,6 +138,16 @@ CHECKS = {
             "2q/h^2 and q_jk/(h_j h_k) per axis for strides 1, 2. Does not decide: gaussian mode (exp kernels), float accuracy, sizes beyond "
             "the small grids used.",
             "DESIGN.md 4/C12"),
+    "C13": (True, "E5(T4)",
+            "abstract interpretation of compose_svfs with a formal Lie bracket (coefficient extraction), of compose_flows and logv with "
+            "torch.grid_sample recorded",
+            "Decides: compose_svfs(u, v, bch_terms=k) is exactly the BCH series truncated after k bracket terms for k = 0..5 (coefficients, "
+            "signs, bracket nesting and operand order) and forwards mode/sigma/spacing/stride to every bracket; commuting fields give u + v "
+            "for every k; compose_flows(u, v, a) = u + sample(v at identity(a) + u) with torch flag a and border padding, zero field is a "
+            "two-sided identity; logv hands its align_corners to every sampling call it reaches. Bilinearity/antisymmetry of the Lie "
+            "bracket template is decided under C12. Does not decide: approximation quality/bounds, exactness for invariant affine pairs "
+            "(interpolation kernel).",
+            "DESIGN.md 4/C13"),
 }
 
 NOT_BUILT_REASON = "static check for this property is designed (DESIGN.md section 4) but not yet built in this revision"
